@@ -4,7 +4,8 @@
            kinds = the hook events of compio_driver::verif:
              20 AWAKE_SET, 21 AWAKE_RESET (arg = prior), 22 AWAKE_WAKE (arg = prior),
              23 NOTIFY_WRITE, 24 NOTIFY_CLEAR, 25 NOTIFIER_ARMED, 26 NOTIFIER_DISARMED,
-             27 ENTER (arg = 2 * wanted + may_block), 28 ENTER_RETURN
+             27 ENTER (arg = 2 * wanted + may_block), 28 ENTER_RETURN,
+             29 AWAKE_BEGIN (a set / reset / wake of this thread is about to happen)
            thread 0 = the driver thread, 1.. = other threads.
    Output: [1; n; number of wakes] when the history is a run of the LTS of
            model/Wake.v restricted to the driver-level variables (AwakeFlag,
@@ -160,6 +161,8 @@ Fixpoint dsteps (is_uring : bool) (s : dst) (es : list (N * N * N)) : option dst
      - a phase closed by reset(prior) has a first wake iff prior has NOTIFIED,
      - along each thread the phases do not decrease, and a thread's first wake of
        a phase is its first event in that phase,
+     - a wake is not assigned to a phase whose closing store was logged before
+       the wake's own AWAKE_BEGIN entry (that phase was over when the wake began),
      - a wake is assigned to a phase that had started when it was logged, or -
        the driver's own log entry being the late one - to the next phases (the
        event is deferred and retried whenever the driver starts a phase).
@@ -173,12 +176,21 @@ Record phase := mk_ph {
   ph_base : N;            (* AWAKE_IDLE or AWAKE_AWAKE *)
   ph_first : bool;        (* the first wake of the phase has been seen *)
   ph_debt : bool;         (* a first wake is implied (later wake / closing prior) but not seen yet *)
-  ph_close : closing
+  ph_close : closing;
+  ph_closed_at : option nat   (* log index of the closing store's entry *)
 }.
 
-Definition ph_set_first (p : phase) := mk_ph (ph_id p) (ph_base p) true false (ph_close p).
-Definition ph_set_debt (p : phase) := mk_ph (ph_id p) (ph_base p) (ph_first p) (negb (ph_first p)) (ph_close p).
-Definition ph_closed (cl : closing) (p : phase) := mk_ph (ph_id p) (ph_base p) (ph_first p) (ph_debt p) cl.
+Definition ph_set_first (p : phase) := mk_ph (ph_id p) (ph_base p) true false (ph_close p) (ph_closed_at p).
+Definition ph_set_debt (p : phase) := mk_ph (ph_id p) (ph_base p) (ph_first p) (negb (ph_first p)) (ph_close p) (ph_closed_at p).
+Definition ph_closed (cl : closing) (at_ : nat) (p : phase) := mk_ph (ph_id p) (ph_base p) (ph_first p) (ph_debt p) cl (Some at_).
+
+(* the phase was not yet closed when the operation that began at log index [bg] started:
+   its closing store was logged at or after [bg] *)
+Definition alive (bg : option nat) (p : phase) : bool :=
+  match bg, ph_closed_at p with
+  | Some b, Some c => Nat.leb b c
+  | _, _ => true
+  end.
 
 (* may this phase (still) receive a first wake / a later wake? *)
 Definition takes_first (p : phase) : bool :=
@@ -191,8 +203,10 @@ Record ast := mk_ast {
   a_drv : dst;                    (* the driver thread's automaton; its dflag is not used *)
   a_phases : list phase;          (* most recent first; the head is open *)
   a_last : list (N * nat);        (* per thread: the phase of its last wake *)
-  a_defer : list (nat * (N * N * N)) (* (log index, event): waker events waiting for a phase that
-                                        the driver has started but not logged yet, in log order *)
+  a_begin : list (N * nat);       (* per thread: log index of its last AWAKE_BEGIN *)
+  a_defer : list (nat * (N * N * N) * option nat)
+     (* (log index, event, begin index): waker events waiting for a phase that the
+        driver has started but not logged yet, in log order *)
 }.
 
 Fixpoint last_of (th : N) (l : list (N * nat)) : option nat :=
@@ -230,7 +244,7 @@ Definition current_value (a : ast) : N :=
   end.
 
 (* a wake (fetch_or) with the recorded prior, by thread th *)
-Definition place_wake (a : ast) (th prior : N) : option ast :=
+Definition place_wake (a : ast) (bg : option nat) (th prior : N) : option ast :=
   let b := base_of prior in
   let later := has_notified prior in
   let lo := last_of th (a_last a) in
@@ -243,20 +257,20 @@ Definition place_wake (a : ast) (th prior : N) : option ast :=
   let w := if own then 1 else PHASE_WINDOW in
   let res :=
     if later then
-      match place w (fun p => N.eqb (ph_base p) b && after_last false p && (ph_first p || ph_debt p))
+      match place w (fun p => N.eqb (ph_base p) b && alive bg p && after_last false p && (ph_first p || ph_debt p))
                   (fun p => p) (a_phases a) with
       | Some r => Some r
       | None =>
         (* its first wake is not in the log yet: a debt *)
-        place w (fun p => N.eqb (ph_base p) b && after_last false p && takes_later p && takes_first p)
+        place w (fun p => N.eqb (ph_base p) b && alive bg p && after_last false p && takes_later p && takes_first p)
               ph_set_debt (a_phases a)
       end
     else
-      match place w (fun p => N.eqb (ph_base p) b && after_last true p && ph_debt p && takes_first p)
+      match place w (fun p => N.eqb (ph_base p) b && alive bg p && after_last true p && ph_debt p && takes_first p)
                   ph_set_first (a_phases a) with
       | Some r => Some r
       | None =>
-        place w (fun p => N.eqb (ph_base p) b && after_last true p && takes_first p)
+        place w (fun p => N.eqb (ph_base p) b && alive bg p && after_last true p && takes_first p)
               ph_set_first (a_phases a)
       end in
   match res with
@@ -266,13 +280,13 @@ Definition place_wake (a : ast) (th prior : N) : option ast :=
     if mem th (owing dv) then None else
     let dv' := mk_dst (dflag dv) (dneed dv) (dph dv) (dnw dv)
                       (if fl_idle prior then th :: owing dv else owing dv) (S (nwakes dv)) in
-    Some (mk_ast dv' phs (set_last th k (a_last a)) (a_defer a))
+    Some (mk_ast dv' phs (set_last th k (a_last a)) (a_begin a) (a_defer a))
   end.
 
-Definition new_phase (a : ast) (cl : closing) (base : N) : list phase :=
+Definition new_phase (a : ast) (cl : closing) (at_ : nat) (base : N) : list phase :=
   match a_phases a with
-  | p :: r => mk_ph (S (ph_id p)) base false false COpen :: ph_closed cl p :: r
-  | [] => [mk_ph 0 base false false COpen]
+  | p :: r => mk_ph (S (ph_id p)) base false false COpen None :: ph_closed cl at_ p :: r
+  | [] => [mk_ph 0 base false false COpen None]
   end.
 
 (* reset with a prior that lacks NOTIFIED although the open phase holds a first
@@ -283,11 +297,11 @@ Definition relocate (a : ast) : option ast :=
   | p :: q :: r =>
     if (ph_first p || ph_debt p) && N.eqb (ph_base p) (ph_base q) && takes_first q && takes_later q
     then
-      let q' := mk_ph (ph_id q) (ph_base q) (ph_first p) (ph_debt p) (ph_close q) in
-      let p' := mk_ph (ph_id p) (ph_base p) false false (ph_close p) in
+      let q' := mk_ph (ph_id q) (ph_base q) (ph_first p) (ph_debt p) (ph_close q) (ph_closed_at q) in
+      let p' := mk_ph (ph_id p) (ph_base p) false false (ph_close p) (ph_closed_at p) in
       Some (mk_ast (a_drv a) (p' :: q' :: r)
                    (map (fun tk => if Nat.eqb (snd tk) (ph_id p) then (fst tk, ph_id q) else tk) (a_last a))
-                   (a_defer a))
+                   (a_begin a) (a_defer a))
     else None
   | _ => None
   end.
@@ -301,18 +315,18 @@ Definition pull_forward (a : ast) : option ast :=
     if negb (ph_first p || ph_debt p) && (ph_first q || ph_debt q) && N.eqb (ph_base p) (ph_base q)
        && match ph_close q with CBySet => true | _ => false end
     then
-      let p' := mk_ph (ph_id p) (ph_base p) (ph_first q) (ph_debt q) (ph_close p) in
-      let q' := mk_ph (ph_id q) (ph_base q) false false (ph_close q) in
+      let p' := mk_ph (ph_id p) (ph_base p) (ph_first q) (ph_debt q) (ph_close p) (ph_closed_at p) in
+      let q' := mk_ph (ph_id q) (ph_base q) false false (ph_close q) (ph_closed_at q) in
       Some (mk_ast (a_drv a) (p' :: q' :: r)
                    (map (fun tk => if Nat.eqb (snd tk) (ph_id q) then (fst tk, ph_id p) else tk) (a_last a))
-                   (a_defer a))
+                   (a_begin a) (a_defer a))
     else None
   | _ => None
   end.
 
-Definition astep_now (is_uring : bool) (a : ast) (kind th arg : N) : option ast :=
+Definition astep_now (is_uring : bool) (i : nat) (bg : option nat) (a : ast) (kind th arg : N) : option ast :=
   match kind with
-  | 22%N => place_wake a th arg
+  | 22%N => place_wake a bg th arg
   | 21%N =>
     (* reset: the prior must agree with the open phase; a NOTIFIED prior without
        a first wake seen so far is a debt *)
@@ -336,36 +350,36 @@ Definition astep_now (is_uring : bool) (a : ast) (kind th arg : N) : option ast 
         | None => None
         | Some dv' =>
           let p' := if n then ph_set_debt p else p in
-          let a' := mk_ast dv' (p' :: tl (a_phases a1)) (a_last a1) (a_defer a1) in
-          Some (mk_ast dv' (new_phase a' (CByReset n) AWAKE_IDLE) (a_last a1) (a_defer a1))
+          let a' := mk_ast dv' (p' :: tl (a_phases a1)) (a_last a1) (a_begin a1) (a_defer a1) in
+          Some (mk_ast dv' (new_phase a' (CByReset n) i AWAKE_IDLE) (a_last a1) (a_begin a1) (a_defer a1))
         end
       else None
     end
   | 20%N =>
     match dstep is_uring (a_drv a) kind th arg with
     | None => None
-    | Some dv' => Some (mk_ast dv' (new_phase a CBySet AWAKE_AWAKE) (a_last a) (a_defer a))
+    | Some dv' => Some (mk_ast dv' (new_phase a CBySet i AWAKE_AWAKE) (a_last a) (a_begin a) (a_defer a))
     end
   | _ =>
     match dstep is_uring (a_drv a) kind th arg with
     | None => None
-    | Some dv' => Some (mk_ast dv' (a_phases a) (a_last a) (a_defer a))
+    | Some dv' => Some (mk_ast dv' (a_phases a) (a_last a) (a_begin a) (a_defer a))
     end
   end.
 
-Definition has_deferred (th : N) (l : list (nat * (N * N * N))) : bool :=
-  existsb (fun x => N.eqb (snd (fst (snd x))) th) l.
+Definition has_deferred (th : N) (l : list (nat * (N * N * N) * option nat)) : bool :=
+  existsb (fun x => N.eqb (snd (fst (snd (fst x)))) th) l.
 
 (* retry the deferred events in order; an event stays deferred when it still
    cannot be placed or when an earlier event of its thread stays deferred *)
-Fixpoint retry (is_uring : bool) (a : ast) (l : list (nat * (N * N * N)))
-               (kept : list (nat * (N * N * N))) : ast :=
+Fixpoint retry (is_uring : bool) (a : ast) (l : list (nat * (N * N * N) * option nat))
+               (kept : list (nat * (N * N * N) * option nat)) : ast :=
   match l with
-  | [] => mk_ast (a_drv a) (a_phases a) (a_last a) kept
+  | [] => mk_ast (a_drv a) (a_phases a) (a_last a) (a_begin a) kept
   | x :: r =>
-    let '(k, th, arg) := snd x in
+    let '(k, th, arg) := snd (fst x) in
     if has_deferred th kept then retry is_uring a r (kept ++ [x]) else
-    match astep_now is_uring a k th arg with
+    match astep_now is_uring (fst (fst x)) (snd x) a k th arg with
     | Some a' => retry is_uring a' r kept
     | None => retry is_uring a r (kept ++ [x])
     end
@@ -374,13 +388,17 @@ Fixpoint retry (is_uring : bool) (a : ast) (l : list (nat * (N * N * N)))
 Definition DEFER_MAX : nat := 64.
 
 Definition astep (is_uring : bool) (i : nat) (a : ast) (kind th arg : N) : option ast :=
+  if N.eqb kind 29 then
+    Some (mk_ast (a_drv a) (a_phases a) (a_last a) (set_last th i (a_begin a)) (a_defer a))
+  else
+  let bg := last_of th (a_begin a) in
   let waker_ev := match kind with 22%N | 23%N => negb (N.eqb th 0) | _ => false end in
   if waker_ev && has_deferred th (a_defer a) then
     if Nat.ltb (length (a_defer a)) DEFER_MAX
-    then Some (mk_ast (a_drv a) (a_phases a) (a_last a) (a_defer a ++ [(i, (kind, th, arg))]))
+    then Some (mk_ast (a_drv a) (a_phases a) (a_last a) (a_begin a) (a_defer a ++ [(i, (kind, th, arg), bg)]))
     else None
   else
-  match astep_now is_uring a kind th arg with
+  match astep_now is_uring i bg a kind th arg with
   | Some a' =>
     match kind with
     | 20%N | 21%N => Some (retry is_uring a' (a_defer a') [])   (* a new phase has started *)
@@ -388,11 +406,11 @@ Definition astep (is_uring : bool) (i : nat) (a : ast) (kind th arg : N) : optio
     end
   | None =>
     if waker_ev && N.eqb kind 22 && Nat.ltb (length (a_defer a)) DEFER_MAX
-    then Some (mk_ast (a_drv a) (a_phases a) (a_last a) (a_defer a ++ [(i, (kind, th, arg))]))
+    then Some (mk_ast (a_drv a) (a_phases a) (a_last a) (a_begin a) (a_defer a ++ [(i, (kind, th, arg), bg)]))
     else None
   end.
 
-Definition ainit : ast := mk_ast dinit [mk_ph 0 AWAKE_IDLE false false COpen] [] [].
+Definition ainit : ast := mk_ast dinit [mk_ph 0 AWAKE_IDLE false false COpen None] [] [] [].
 
 Fixpoint areplay (is_uring : bool) (a : ast) (es : list N) (i : nat) : ast + nat :=
   match es with
@@ -414,7 +432,7 @@ Definition run_c03 (l : list N) : list N :=
     match areplay (N.eqb drv 0) ainit r 0 with
     | inl a =>
       match a_defer a with
-      | x :: _ => [0%N; NN (fst x); fst (fst (snd x))]   (* a wake that fits no phase *)
+      | x :: _ => [0%N; NN (fst (fst x)); fst (fst (snd (fst x)))]   (* a wake that fits no phase *)
       | [] =>
         if isnil (owing (a_drv a)) && no_debt a
         then [1%N; n; NN (nwakes (a_drv a))]
